@@ -19,7 +19,7 @@ PARAMS = {
     "TLSetSliceList": ("l", "sl", "l2"), "TLSetSliceTrees": ("l", "sl", "ts"), "TLGetSlice": ("l", "sl"),
     "TLRemoveAt": ("l", "i", "how"), "TLClear": ("l",), "TLNewTree": ("l", "nsarg"), "TLRead": ("l", "srcs"),
     "TLCtorList": ("l", "nsarg"), "TLCtorTrees": ("ts", "nsarg"), "TLMigrate": ("l", "n", "unify"),
-    "TLReconstruct": ("l", "unify"), "TLUpdate": ("l",), "TreeMigrate": ("t", "n", "unify"), "TreeClone": ("t", "nsarg"),
+    "TLReconstruct": ("l", "unify"), "TLClearReconstruct": ("l", "unify"), "TLUpdate": ("l",), "TreeMigrate": ("t", "n", "unify"), "TreeClone": ("t", "nsarg"),
     "TAAdd": ("a", "t"), "TARead": ("a", "srcs"), "CMNewSeq": ("m", "t"), "TLAppendMemo": ("l", "t", "how", "k"), "TLMigrateMemo": ("l", "n", "k"), "TreeMigrateMemo": ("t", "n", "k"),
     "CMMigrateMemo": ("m", "n", "k"), "TLNewTreeSeed": ("l", "refs", "labs"), "TreeFromSeed": ("nsarg", "refs", "labs"),
     "CMSetItem": ("m", "t"), "CMGetTaxon": ("m", "t"), "CMGetLabel": ("m", "lab"), "CMGetIndex": ("m", "i"),
@@ -290,6 +290,11 @@ class World(object):
             return reassign, via
         if name == "TLReconstruct":
             return (lambda: L[a["l"]].reconstruct_taxon_namespace(unify_taxa_by_label=a["unify"])), "reconstruct"
+        if name == "TLClearReconstruct":
+            def clear_reconstruct():
+                L[a["l"]].taxon_namespace.clear()
+                L[a["l"]].reconstruct_taxon_namespace(unify_taxa_by_label=a["unify"])
+            return clear_reconstruct, "clear+reconstruct"
         if name == "TLUpdate":
             return (lambda: L[a["l"]].update_taxon_namespace()), "update"
         if name == "TreeMigrate":
